@@ -26,8 +26,12 @@ Proof.
   intro I. apply Forall_forall. intros x Hx.
   destruct (plan_exp_shape _ _ Hx) as (ce&Hce&H).
   destruct (i_exp _ I) as (e&ce'&He&Hce'&L&De&Dce&Ne&Nce). rewrite Hce in Hce'. inversion Hce'; subst ce'.
-  destruct (H Nce) as [(add&->)|[(st&->&NN)|[(s&cs'&Hs&->)|[->|(r&(B1&B2)&Hr)]]]]; unfold write_ok; cbn [fst]; auto.
-  - split; [exact NN|]. exists e. split; [exact He|]. destruct L as (R&E&_). split; [exact R|].
+  destruct (H (status_ok_nonneg _ _ Nce)) as [(add&->)|[(st&->&NN)|[(s&cs'&Hs&->)|[->|(r&(B1&B2)&Hr)]]]]; unfold write_ok; cbn [fst]; auto.
+  - split.
+    { destruct (plan_exp_status_classes _ _ _ _ _ Hce Hx) as [(K1&K2)|(K1&K2)].
+      - destruct Nce as [W1 W2]. split; [unfold status_wf; now rewrite K1, K2|now rewrite K1].
+      - split; [exact K2|]. rewrite K1, map_length. apply (tlag_length _ _ (i_tlag _ I)). }
+    exists e. split; [exact He|]. destruct L as (R&E&_). split; [exact R|].
     intros Q C Rs. rewrite <- (E Q) in *. eapply plan_exp_settled; eauto.
   - apply (keep_status_ok w s _ I Hs); reflexivity.
   - assert (RO : req_ok w r).
@@ -168,11 +172,13 @@ Proof.
     all: try (repeat split; cbn; auto; try lia; intros k K Hk; unfold t_is in *; cbn [t_conds]; now apply has_cond_app_l).
     all: try (eapply InvP_mono; [exact E2| | | |exact P1]; reflexivity).
     all: try (eapply evolves_trans; [apply evolves_core; exact C1|exact E2]).
-    (* the early-stopped trial is not Succeeded *)
-    unfold tgood, good_conds. cbn [t_conds t_obs]. intro S. exfalso.
-    apply not_completed_parts in NC as (S0&_). unfold t_is in S0.
-    unfold has_cond in S. rewrite get_app in S. unfold has_cond in S0.
-    destruct (get_cond (t_conds tr) TSucceeded); [congruence|]. cbn in S. discriminate.
+    (* the early-stopped trial is neither Succeeded nor MetricsUnavailable *)
+    unfold tgood, good_conds. cbn [t_conds t_obs].
+    apply not_completed_parts in NC as (S0&_&_&_&M0). unfold t_is in S0, M0. split; intro S; exfalso.
+    + unfold has_cond in S. rewrite get_app in S. unfold has_cond in S0.
+      destruct (get_cond (t_conds tr) TSucceeded); [congruence|]. cbn in S. discriminate.
+    + unfold has_cond in S. rewrite get_app in S. unfold has_cond in M0.
+      destruct (get_cond (t_conds tr) TMetricsUnavailable); [congruence|]. cbn in S. discriminate.
   - (* DeployAvailable *)
     destruct (i_dep (w_infra w)); [|split; [split; assumption|apply evolves_refl]].
     split; [|apply evolves_store_eq; reflexivity].
@@ -224,7 +230,7 @@ Proof.
   intros (Hp&Hm&_). split.
   - constructor; cbn; auto using tlag_nil; try lia.
     + eexists _, _. split; [reflexivity|]. split; [reflexivity|]. split; [apply ele_refl|].
-      cbn. unfold counts_nonneg. cbn. repeat split; lia.
+      cbn. unfold status_ok, status_wf. cbn. repeat split; lia.
     + constructor.
     + split; [lia|]. split; [unfold completed_n; cbn; lia|].
       intros e m [= <-] Hm'. cbn in Hm'. rewrite Hm' in Hm. lia.
